@@ -47,7 +47,9 @@ TRACE_PLANS = {
             ("synth:cyclic,midconflict,base,excl,locks,unknown", 120, 2500, "", False),
             # a cancellation request that arrives only after solve has returned, while the
             # conflict is rendered
-            ("cancelrender:unionoverlap,unionempty,midconflict", 40, 800, "", False)],
+            ("cancelrender:unionoverlap,unionempty,midconflict", 40, 800, "", False),
+            # a solve cancelled with requests in flight, then the same solver again: it must return
+            ("cancel:small,hints", 3, 40, "async", False)],
     "C05": [("solve:midconflict,conflict,direct", 250, 4000, "", True),
             ("solve:base,cyclic", 200, 3000, "hints", True),
             ("solve:selfreq,hintcons", 400, 5000, "", True),
@@ -71,7 +73,7 @@ TRACE_PLANS = {
     "C12": [("cancel:small,base,hints,soft", 7, 150, "async", False),
             ("cancel:midconflict", 3, 60, "async", False)],
     "C13": [("history:base,hints,soft,excl,midconflict,unknown", 54, 1200, "async", True),
-            ("cancel:small,hints", 5, 100, "async", False)],
+            ("cancel:small,hints,fan", 4, 100, "async", False)],
     "C15": [("wide:1,2,3,4,5,6,7,8,9", 1, 1, "", False),
             ("wide:15,16,17,31,32,33,40", 1, 1, "", False),
             ("widechain:2,3,4,5,6,7,8,9,12,16,17,24,32,33,40", 1, 1, "", True),
@@ -117,6 +119,8 @@ ALSO = {
             "C02_UnsatButSatisfiable", "C01_V_RootReq", "C01_V_RootCons", "C01_V_Known", "C01_V_Req", "C01_V_Cons",
             "C01_V_Excluded", "C01_V_Locked", "C01_V_OnePerName", "C01_DupInSolution", "C01_NotASolvable"],
     "C12": ["C04_Panic", "C04_Timeout", "C04_Crash"],
+    # waiting for ever is not returning
+    "C04": ["C10_Deadlock"],
     "C13": ["C04_Panic", "C04_Timeout", "C04_Crash", "C09_DupDeps", "C09_DupCands", "C10_Deadlock",
             "C02_UnsatButSatisfiable", "C01_V_RootReq", "C01_V_RootCons", "C01_V_Known", "C01_V_Req", "C01_V_Cons",
             "C01_V_Excluded", "C01_V_Locked", "C01_V_OnePerName", "C01_DupInSolution", "C01_NotASolvable", "C01_DbNotSatisfied"],
